@@ -239,6 +239,9 @@ def shapes(tier):
     A(freq=W, byweekday=[0, 2, 4], bysetpos=[3, -1], span=1, K=4)
     A(freq=Y, bymonth=[2], bymonthday=[28, 29], bysetpos=[2, -1], span=5, K=4)
     A(freq=MO_, bymonthday=[31], byhour=[6, 18], bysetpos=[1, 2, -1], span=1, K=5)
+    # an nth weekday that does not exist in one of two adjacent months must not spill into the neighbour
+    A(freq=Y, bymonth=[2, 3], byweekday=[[1, 5]], span=9, K=3)
+    A(freq=Y, bymonth=[4, 5, 6], byweekday=[[0, -5], [6, 5]], span=5, K=4)
     # shapes that expose the recorded findings (kept so that the findings stay visible and anything new next to them is reported)
     A(freq=MO_, byweekday=[0, [4, 1]], span=2, until_days=200)
     A(freq=MO_, byweekday=[[6, 52]], span=1)
